@@ -222,6 +222,12 @@ def oracle(case):
             return ("C14:state_dict:roundtrip", f"state_dict() of the DP layer loaded into nn.MultiheadAttention changes {bad or sorted(set(sd1) ^ set(sd0))} [{sig(case)}]", {})
     except Exception as e:  # noqa: BLE001
         return (f"C14:state_dict:{type(e).__name__}", f"nn.MultiheadAttention.load_state_dict(dp.state_dict()) raises {type(e).__name__}: {str(e)[:160]} [{sig(case)}]", {})
+    if not case.get("nw", True):
+        # a query row with every key masked: torch's own two paths disagree there (NaN from the softmax path,
+        # whatever the fused kernel does for need_weights=False) – no reference value, outside the property
+        r0 = R.run_layer(tl, dict(case, nw=True), t, grads=False)
+        if r0["status"] == "ok" and bool(torch.isnan(r0["out"]).any()):
+            return None
     rt = R.run_layer(tl, case, t, grads=True)
     if rt["status"] != "ok":
         return None                       # torch rejects the input: outside the property's domain
